@@ -24,12 +24,8 @@ func c18(p *an.Prog, r *an.R, tier string) {
 }
 
 // edgeFact: does taking successor k of block b establish the fact.
-func edgeFact(b *cfg.Block, k int, holds func(atom ast.Expr, truth bool) bool) bool {
-	cond := an.CondOf(b)
-	if cond == nil {
-		return false
-	}
-	return an.Implied(cond, k == 0, holds)
+func edgeFact(g *an.G, b *cfg.Block, k int, holds func(atom ast.Expr, truth bool) bool) bool {
+	return g.EdgeImplies(b, k, holds)
 }
 
 func isIdentOf(info *types.Info, e ast.Expr, obj types.Object) bool {
@@ -257,7 +253,7 @@ func c18Select(p *an.Prog, r *an.R) {
 	_ = startsTrue
 	// R3
 	skip := lg.Reach(first, false, &an.Search{Target: nextIter, Cut: lAppend, ExitIsTarget: true, CutEdge: func(b *cfg.Block, k int) bool {
-		return edgeFact(b, k, func(atom ast.Expr, truth bool) bool { return isIdentOf(info, atom, anyVar) && !truth })
+		return edgeFact(lg, b, k, func(atom ast.Expr, truth bool) bool { return isIdentOf(info, atom, anyVar) && !truth })
 	}})
 	r.Check(!skip, "C18.R3", "search.doSelectRepoSet/shard-loop/dropped-only-when-no-repository-matches", shardLoop.Pos(), "a shard is left out only when `any` is false", "a shard can be left out of the selection although the repository predicate was not found false for all of its repositories: its results are lost")
 	// the arguments of hasRepos: the shard's repositories
